@@ -141,6 +141,38 @@ def unplacedWfWhile (S : Schema) (doc : Node) (f t : Nat) (sl : Slice) : Bool :=
       | _ => true
     | _, _ => true
 
+/-- the first state of the run (with something left to place) in which the unplaced slice is not well-formed or fails a
+    site condition: `(wf, startSiteOk, endSiteOk)` there; `none` = there is no such state before the loop ends, fails
+    or runs out of fuel.  Props/C11.lean `fit_raises_only_at_sites`: a run that raises has one.  (Evaluation helper.) -/
+def firstBadState (S : Schema) : Nat → FitState → Option (Bool × Bool × Bool)
+  | 0, _ => none
+  | fuel + 1, st =>
+    if st.unplaced.size == 0 then none
+    else
+      let u := st.unplaced
+      let w := u.wf
+      let a := S.startSiteOk u.openStart u.content
+      let b := S.endSiteOk u.content u.openEnd
+      if w && a && b then
+        match fitStep S st with
+        | .ok st' => firstBadState S fuel st'
+        | .error _ => none
+      else some (w, a, b)
+
+/-- `firstBadState` for a request (`none` also when the Fitter is not reached) -/
+def requestBadState (S : Schema) (doc : Node) (f t : Nat) (sl : Slice) : Option (Bool × Bool × Bool) :=
+  if f == t && sl.size == 0 then none
+  else
+    match doc.resolve f, doc.resolve t with
+    | some rf, some rt =>
+      match fitsTriviallyR S rf rt sl with
+      | some false =>
+        match fitInit S rf sl with
+        | .ok st0 => firstBadState S (fitFuel S sl) st0
+        | .error _ => none
+      | _ => none
+    | _, _ => none
+
 /-- wherever a node of type `a` is accepted, a node of type `b` is accepted right behind it: for every state of
     every content automaton of the schema -/
 def Schema.followsB (S : Schema) (a b : TypeId) : Bool :=
